@@ -113,9 +113,10 @@ def config(tier, seed):
         # seed-chosen sample of the pairs; the pairs with getutxo rotate first
         # (pairs with mid-sync have 5x the states: thorough tier only)
         nosync = [p for p in ap if 7 not in p]
-        pairs = [nosync[(seed * 7 + 3) % len(nosync)]]
+        # the pair run takes one pool (rotating with the seed) and two pairs
+        pairs = [nosync[(seed * 7 + 3) % len(nosync)], nosync[(seed * 11 + 8) % len(nosync)]]
         return dict(runs=[dict(Pools="{0,1,2}", MaxAct=1, LateBegin=True, pairs=[], Dialing=True),
-                          dict(Pools="{0,1,2}", MaxAct=2, LateBegin=False, pairs=pairs)],
+                          dict(Pools="{%d}" % (seed % 3), MaxAct=2, LateBegin=False, pairs=pairs)],
                     live=dict(Pools="{0,1,2}", MaxAct=1, LateBegin=True, pairs=ap),
                     moments=[0, 1], per_key=2, bound=BOUND)
     return dict(runs=[dict(Pools="{%d}" % p, MaxAct=2, LateBegin=False, pairs=ap) for p in (0, 1, 2)]
